@@ -83,9 +83,14 @@ TwoIn == {Table("MULTI", hp, <<In("x", "number", NoAllowed), In("y", "string", N
                 <<<<VN(1), VS(<<97>>)>>, <<VN(2), VS(<<98>>)>>, <<VN(3), VNull>>, <<VNull, VS(<<97>>)>>>>)
              : hp \in {"U", "F", "C", "C#"}, r1 \in R3, r2 \in R3}
 
-Tables == Match \cup PolicyT \cup MultiT \cup TwoIn
+\* two inputs of the same kind: the same entry text occurs in both columns (an entry belongs to its column)
+R4 == {Rule(<<e, f>>, <<o>>) : e \in {AnyE, One, UT("utge", Two)}, f \in {AnyE, One, UT("utge", Two)}, o \in {O10, O20}}
+TwoNum == {Table("MULTI", hp, <<In("x", "number", NoAllowed), In("y", "number", NoAllowed)>>, <<Out("", <<>>, None)>>, <<r1, r2>>,
+                 <<<<VN(1), VN(3)>>, <<VN(3), VN(1)>>, <<VN(2), VN(2)>>, <<VN(1), VN(1)>>>>)
+             : hp \in {"F", "C"}, r1 \in R4, r2 \in R4}
+Tables == Match \cup PolicyT \cup MultiT \cup TwoIn \cup TwoNum
 ASSUME \A t \in Tables : PrintT(<<"TABLE", ToJson(t)>>)
-ASSUME PrintT(<<"COUNT", Cardinality(Match), Cardinality(PolicyT), Cardinality(MultiT), Cardinality(TwoIn)>>)
+ASSUME PrintT(<<"COUNT", Cardinality(Match), Cardinality(PolicyT), Cardinality(MultiT), Cardinality(TwoIn), Cardinality(TwoNum)>>)
 VARIABLE v
 Init == v = 0
 Next == FALSE /\ v' = v
